@@ -23,7 +23,7 @@ def has_alias_nullable_field(api):
 
 
 _CTXNUM = re.compile(r'-\d+')
-LEXER_REWRITES = re.compile('[\x0b\x0c\x1c\x1d\x1e\x85\u2028\u2029\r]|"[^"\n]*    [^"\n]*"')
+LEXER_REWRITES = re.compile('[\x0b\x0c\x1c\x1d\x1e\x85\u2028\u2029\r]|"[^"\n]*    [^"\n]*"|\\\\[nr]"')
 
 
 def run_valid(case, rec):
